@@ -17,7 +17,10 @@ EXPLANATION = (
     "_set_context keeps only immutable values or deep copies of what it is handed (threading classes and the "
     "producer SetContext excepted by name); (d) every exit of the two setters that leaves _static_context "
     "unassigned stores the caught LenaKeyError in _exc and the getters re-raise it; (e) static-context fields "
-    "reach run-time values only in UpdateContextFromStatic.run and only through deepcopy.  Does not decide the "
+    "reach run-time values only in UpdateContextFromStatic.run and only through deepcopy; (f) in LenaSplit every branch "
+    "that has _get_context contributes its context to the one list that is intersected (no further test such as "
+    "non-emptiness, no early exit, no level limit) and every branch that has _set_context receives the enclosing "
+    "context, the only early return being for an empty context.  Does not decide the "
     "concrete context seen for a concrete tree.")
 RULES = {
     "C13-a": "FOLD: LenaSequence._set_context threads the context forwards through self._seq, set before get",
